@@ -16,7 +16,7 @@ def dfp_swell(dt, distance=1e6):
     return dt * G / (4 * np.pi * distance)
 
 
-def check(fp, dpm, wspd, dt, ids, nreported, ddpm_sea_max=30, ddpm_swell_max=20, scaling=1.0, distance=1e6):
+def check(fp, dpm, wspd, dt, ids, nreported, ddpm_sea_max=30, ddpm_swell_max=20, scaling=1.0, distance=1e6, dd_noise=0.0, df_noise=0.0):
     """fp, dpm, ids: (P, T). Returns (problem | None, ambiguous: bool)."""
     P, T = fp.shape
     ids = np.asarray(ids)
@@ -58,8 +58,10 @@ def check(fp, dpm, wspd, dt, ids, nreported, ddpm_sea_max=30, ddpm_swell_max=20,
                     df = fp[i, t] - fp[j, t - 1]
                     ddmax = ddpm_sea_max if j == 0 else ddpm_swell_max
                     dmin = dfp_wsea(wspd[t - 1], fp[0, t - 1], dt, scaling) if j == 0 else -dsw
-                    for val, lim in ((dd, ddmax), (df, dsw), (df, dmin)):
-                        if abs(val - lim) <= 1e-12 * max(abs(lim), 1e-3):
+                    # dd_noise / df_noise: rounding of the statistics themselves when they were recomputed from float32
+                    # results (end-to-end use); a comparison closer to its limit than that is not decidable
+                    for val, lim, nz in ((dd, ddmax, dd_noise), (df, dsw, df_noise), (df, dmin, df_noise)):
+                        if abs(val - lim) <= max(1e-12 * max(abs(lim), 1e-3), nz):
                             amb = True
                     if not (dd < ddmax and df < dsw and df > dmin):
                         return ("identifier-carried-outside-thresholds", {"step": t, "id": k, "prev_part": j, "cur_part": i, "ddpm": float(dd), "ddpm_max": float(ddmax),
